@@ -37,6 +37,9 @@ func exec(c px.Context, op string, args []sx.Sexp) core.Result {
 	if res, ok := lat.ExecTier2(c, op, args); ok {
 		return res
 	}
+	if op == "sigs" {
+		return execSigs(c, args)
+	}
 	if op != "desc" && op != "assert" {
 		return core.Result{Out: "bad-op", Pred: "FAIL harness-bad-op " + op}
 	}
@@ -247,5 +250,6 @@ func gen(g *core.G) {
 		g.Emit("@desc " + x + " " + s(lg.Ty(1)))
 		g.Emit("@assert " + x + " " + lg.Val(1).String())
 	}
+	genSigs(g, lg)
 	lat.GenTier2(g.Emit, g.Rng, "C19")
 }
